@@ -1188,7 +1188,7 @@ BUILTINS = {
 }
 EXC_NAMES = {"AttributeError", "ValueError", "Exception", "KeyError", "TypeError", "IndexError", "RuntimeError",
              "ImportError", "NotImplementedError", "AssertionError", "StopIteration"}
-ARRM = {"reshape", "flatten", "conj", "astype", "copy", "ravel", "any", "all", "tolist", "sum", "mean", "max", "min",
+ARRM = {"reshape", "flatten", "conj", "astype", "copy", "ravel", "swapaxes", "any", "all", "tolist", "sum", "mean", "max", "min",
         "dot", "squeeze", "transpose", "conjugate", "std", "argmax", "argmin", "fill", "item", "round", "clip", "nonzero", "cumsum"}
 
 
@@ -2350,6 +2350,8 @@ def arrmethod(b, name, args, kw, node):
         return withrank(b, rk)
     if name in ("flatten", "ravel"):
         return withrank(b, 1)
+    if name in ("swapaxes", "transpose", "conj", "conjugate", "copy", "astype", "view"):
+        return b
     if name == "tolist":
         return Lst([], elem(b))
     if name == "dot":
